@@ -42,7 +42,9 @@ Dbs == [ d1 |-> [tabs |-> (T :> [cols |-> TabA, rows |-> <<<<IntV(1), sa>>, <<In
          d3 |-> [tabs |-> (T :> [cols |-> TabA, rows |-> <<>>]), streams |-> << >>],
          \* a string longer than 64 KiB (the pool's long form) next to a short one, in an unlimited-width column
          d4 |-> [tabs |-> (T :> [cols |-> <<ColK, StrCol(V, 0, TRUE, FALSE, <<>>)>>,
-                                 rows |-> <<<<IntV(1), StrV([k \in 1..66000 |-> 97 + (k % 7)])>>, <<IntV(2), sa>>>>]),
+                                 rows |-> <<<<IntV(1), StrV([k \in 1..66000 |-> 97 + (k % 7)])>>, <<IntV(2), sa>>,
+                                            \* exactly 65536 bytes: the low half of the long form's length is 0
+                                            <<IntV(3), StrV([k \in 1..65536 |-> 98 + (k % 5)])>>>>]),
                  streams |-> << >>],
          \* 32 columns in a type mix (i16, i32, string(8), unlimited localizable string; nullable and not)
          d5 |-> [tabs |-> (T :> [cols |-> Cols32, rows |-> <<Row32(1), Row32(2)>>]), streams |-> << >>] ]
@@ -137,8 +139,12 @@ QuickImages ==
    [db |-> "d3", c |-> [refw |-> 2, cpid |-> 0, holes |-> "none", dup |-> FALSE, over |-> FALSE, validation |-> FALSE, unsorted |-> FALSE, int1 |-> TRUE, ps |-> "desc"]],
    [db |-> "d5", c |-> [refw |-> 3, cpid |-> 1252, holes |-> "empty", dup |-> FALSE, over |-> FALSE, validation |-> TRUE, unsorted |-> TRUE, int1 |-> FALSE, ps |-> "asc"]],
    [db |-> "d1", c |-> [Plain EXCEPT !.cpid = 932]], [db |-> "d1", c |-> [Plain EXCEPT !.cpid = 28598]],
-   [db |-> "d2", c |-> [Plain EXCEPT !.ps = "nocp"]], [db |-> "d1", c |-> [Plain EXCEPT !.ps = "cp0", !.refw = 3]]}
+   [db |-> "d2", c |-> [Plain EXCEPT !.ps = "nocp"]], [db |-> "d1", c |-> [Plain EXCEPT !.ps = "cp0", !.refw = 3]],
+   [db |-> "d4", c |-> [Plain EXCEPT !.refw = 3, !.holes = "stale"]]}
 
+\* with the "desc" layout the code-page property is listed LAST and the text is in Windows-1252: a reader must
+\* find the page before decoding any string
+SummaryOf(c) == IF c.ps = "desc" THEN [ImgSummary EXCEPT !.codepage = IntV(1252)] ELSE ImgSummary
 ImgJ(i, img) ==
   [db |-> i.db, c |-> i.c, ptype |-> "Installer", cp |-> i.c.cpid, longrefs |-> i.c.refw = 3,
    pool |-> img.pool,
@@ -147,7 +153,7 @@ ImgJ(i, img) ==
                                                ELSE IF t = N_Validation THEN ValidationCols ELSE Dbs[i.db].tabs[t].cols
                                    IN [k \in 1..Len(cols) |-> TypeWord(cols[k])],
                          cells |-> img.ts[t]] : t \in DOMAIN img.ts}),
-   summary |-> ImgSummary, pslayout |-> i.c.ps, int1 |-> i.c.int1,
+   summary |-> SummaryOf(i.c), pslayout |-> i.c.ps, int1 |-> i.c.int1,
    streams |-> SetToSeq({[name |-> n, data |-> Dbs[i.db].streams[n]] : n \in DOMAIN Dbs[i.db].streams})]
 
 \* the image an exploration started from: part of the VIEW, or TLC would keep one image per abstract database
@@ -159,7 +165,7 @@ FInit ==
     LET img == BuildImage(Dbs[i.db], i.c) IN
     /\ tstream = img.ts /\ pool = NormPool(img.pool)
     /\ schemas = DecodeSchemas(img.ts, img.pool)
-    /\ cp = (IF i.c.cpid = 0 THEN 65001 ELSE i.c.cpid) /\ summary = ImgSummary
+    /\ cp = (IF i.c.cpid = 0 THEN 65001 ELSE i.c.cpid) /\ summary = SummaryOf(i.c)
     /\ dirty = [fin |-> FALSE, sum |-> FALSE, pool |-> FALSE]
     /\ dpool = [cp |-> cp, e |-> img.pool] /\ dsum = summary
     /\ ustreams = Dbs[i.db].streams /\ sess = "open" /\ ptype = "Installer" /\ ro = TRUE /\ msync = TRUE
